@@ -4,6 +4,7 @@
 //! This includes range checks, pattern validation, and cross-field constraints.
 
 use crate::config::Config;
+use super::expires::ParsedDate;
 use crate::stats::parse_duration;
 use crate::{Result, SlocGuardError};
 
@@ -55,8 +56,27 @@ fn validate_content_section(config: &Config) -> Result<()> {
                 i, warn_at, i, rule.max_lines
             )));
         }
+        if let Some(warn_threshold) = rule.warn_threshold
+            && !(0.0..=1.0).contains(&warn_threshold)
+        {
+            return Err(SlocGuardError::Config(format!(
+                "content.rules[{i}].warn_threshold must be between 0.0 and 1.0, got {warn_threshold}"
+            )));
+        }
+        if let Some(expires) = &rule.expires {
+            validate_expires(expires, "content", i)?;
+        }
     }
     Ok(())
+}
+
+/// Validates that an `expires` value is a YYYY-MM-DD date.
+fn validate_expires(expires: &str, section: &str, index: usize) -> Result<()> {
+    ParsedDate::parse(expires).map(|_| ()).map_err(|e| {
+        SlocGuardError::Config(format!(
+            "{section}.rules[{index}].expires is not a valid date: {e}"
+        ))
+    })
 }
 
 fn validate_glob_patterns(config: &Config) -> Result<()> {
@@ -225,6 +245,9 @@ fn validate_structure_rules(config: &Config) -> Result<()> {
             return Err(SlocGuardError::Config(format!(
                 "structure.rules[{i}].warn_dirs_at ({warn_dirs_at}) must be less than structure.rules[{i}].max_dirs ({max_dirs})"
             )));
+        }
+        if let Some(expires) = &rule.expires {
+            validate_expires(expires, "structure", i)?;
         }
     }
     Ok(())
